@@ -7,7 +7,12 @@ namespace
 {
 void run(vh::Case &c, bool logs)
 {
-  bs::Cfg cfg = bs::gen_cfg(c.rd, logs, 1);
+  // mostly this property's own scenario shapes, but also the shapes biased towards the other two
+  // batch-processor properties (the oracle is a predicate over any history)
+  static const int biases[] = {1, 2, 3};
+  int bias                  = biases[c.rd.weighted({6, 2, 2})];
+  bs::Cfg cfg               = bs::gen_cfg(c.rd, logs, bias);
+  c.tag("bias-" + std::to_string(bias));
   c.note(bs::describe(cfg));
   bs::History h;
   if (logs)
